@@ -235,6 +235,32 @@ def translate_setter(f):
     _refuse(f, "assignment target not understood: " + ast.unparse(tgt))
 
 
+def caught_errors(methods):
+    """Names in the `except (...) as err:` clause of _parseCifDataSource that become StructureFormatError."""
+    if "_parseCifDataSource" not in methods:
+        raise TranslatorRefusal("%s: method _parseCifDataSource not found" % FN)
+    f = methods["_parseCifDataSource"]
+    tries = [n for n in ast.walk(f) if isinstance(n, ast.Try)]
+    if len(tries) != 1 or len(tries[0].handlers) != 1 or tries[0].orelse or tries[0].finalbody:
+        _refuse(f, "_parseCifDataSource does not have exactly one try / one except clause")
+    h = tries[0].handlers[0]
+    want = ("exc_type, exc_value, exc_traceback = sys.exc_info()\nemsg = str(%s).strip()\ne = StructureFormatError(emsg)\n"
+            "raise e.with_traceback(exc_traceback)" % h.name)
+    if "\n".join(ast.unparse(x) for x in h.body) != want:
+        _refuse(h, "the except clause of _parseCifDataSource no longer re-raises StructureFormatError in the known way")
+    t = h.type
+    elts = t.elts if isinstance(t, ast.Tuple) else [t]
+    names = []
+    for e in elts:
+        if not isinstance(e, ast.Name):
+            _refuse(h, "exception class is not a plain name")
+        names.append(e.id)
+    # the loop over blocks inside the try must still call _parseCifBlock
+    if "self._parseCifBlock(blockname)" not in ast.unparse(tries[0]):
+        _refuse(f, "_parseCifBlock is no longer called inside the try block")
+    return names
+
+
 def load():
     path = os.path.join(SRC, FN)
     src = open(path).read()
@@ -345,8 +371,9 @@ def load():
         for k, v in _shapes.SYMOP_PATTERNS.items():
             if consts.get(k) != [v]:
                 raise TranslatorRefusal("%s: pattern %s changed: %s" % (FN, k, consts.get(k)))
+    caught = caught_errors(methods)
     return {"names": names, "bodies": bodies, "iso": iso, "btou": btou, "symop_reader": tags["getSymOp"],
-            "label_scheme": tags["_expandAsymmetricUnit"]}
+            "label_scheme": tags["_expandAsymmetricUnit"], "caught": caught}
 
 
 def generate():
@@ -363,6 +390,8 @@ def generate():
            "Definition iso_adp_values : list string := [%s]." % "; ".join(cstr(x) for x in d["iso"]), "",
            "(* P_cif.BtoU *)",
            "Definition cif_BtoU {T : Type} (O : ops T) (pi : T) : T := %s." % d["btou"], "",
+           "(* exceptions that _parseCifDataSource turns into StructureFormatError *)",
+           "Definition caught_errors : list string := [%s]." % "; ".join(cstr(x) for x in d["caught"]), "",
            "Definition the_symop_reader : symop_reader := %s." % d["symop_reader"],
            "Definition the_label_scheme : label_scheme := %s." % d["label_scheme"], ""]
     return {"Gen/C07_CifSpec.v": "\n".join(out)}
